@@ -124,3 +124,18 @@ case(O + "opt_bag", params={"b": Opt(Ref("OBag"))}, returns=INT,
      gen=lambda rng: {"b": rng.choice([None, [], [1], [1, 2]])}, build=lambda d: {"b": None if d["b"] is None else M.OBag(d["b"])})
 # the real class defines __len__, the model has no hook: refusing is the only sound answer
 case(O + "bag_truth", name="nohook", params={"b": Ref("OBagNoHook")}, returns=INT, expect="unsupported", msg="__bool__/__len__")
+
+# ---- properties of repo classes: reading the attribute applies the getter's contract ------------------------------------------------------
+cls("OPair", fields={"a": INT, "b": INT}, repo=O + "OPair")
+case(O + "OPair.total", params={"self": Ref("OPair")}, returns=INT, ensures={"v": "result == self.a + self.b"}, canaries={"a": "result == self.a"},
+     gen=lambda rng: {"a": rng.randint(0, 20), "b": rng.randint(1, 3)}, build=lambda d: {"self": M.OPair(d["a"], d["b"])},
+     call=lambda fn, a: fn.fget(a["self"]))
+from pyvc.api import BOOL  # noqa: E402
+
+case(O + "OPair.big", params={"self": Ref("OPair")}, returns=BOOL, ensures={"v": "result == (self.a > 10)"}, canaries={"t": "result"},
+     gen=lambda rng: {"a": rng.randint(0, 20), "b": rng.randint(1, 3)}, build=lambda d: {"self": M.OPair(d["a"], d["b"])},
+     call=lambda fn, a: fn.fget(a["self"]))
+case(O + "use_prop", params={"p": Ref("OPair")}, returns=INT,
+     ensures={"big": "implies(p.a > 10, result == p.a + p.b)", "small": "implies(p.a <= 10, result == 0)"},
+     canaries={"always": "result == p.a + p.b", "zero": "result == 0"},
+     gen=lambda rng: {"a": rng.randint(0, 20), "b": rng.randint(1, 3)}, build=lambda d: {"p": M.OPair(d["a"], d["b"])})
